@@ -276,6 +276,41 @@ UNARY = ['sup', 'sub', 'sqrt', 'lr', 'mbox', 'text', 'zzm', 'grp', 'arrh']
 BINARY = ['supsub', 'subsup', 'frac', 'sqrtn', 'arr', 'jux']
 CONTEXTS = ['dollar', 'paren', 'bracket', 'equation', 'textbf', 'ddollar']
 
+# Second leaf family: unbraced-argument spellings.  An argument is a brace group that ends in a non-letter, a single
+# letter or a single digit; every combination for two-argument commands, one-argument commands (with and without an
+# optional argument for \sqrt), scripts in both orders, and the user macro called as \zzm x.
+ARGS = ['{y+1}', 'a', '2']
+
+
+def _spell():
+    out = []
+    for cmd in ('\\frac', '\\stackrel'):
+        for a in ARGS:
+            for b in ARGS:
+                out.append('%s%s%s%s' % (cmd, ' ' if a[0].isalpha() else '', a, b))
+    for cmd in ('\\sqrt', '\\hat', '\\bar', '\\mathbf'):
+        for a in ARGS:
+            f = '%s%s%s' % (cmd, ' ' if a[0].isalpha() else '', a)
+            if f != '\\sqrt x':
+                out.append(f)
+    for opt in ('[3]', '[n]'):
+        for a in ARGS:
+            out.append('\\sqrt%s%s' % (opt, a))
+    for a in ARGS:
+        for b in ARGS:
+            out.append('z^%s_%s' % (a, b))
+            out.append('z_%s^%s' % (a, b))
+    for a in ARGS:
+        out.append(('zzmu', a))
+    return out
+
+
+SPELL = _spell()
+
+
+def leaves(fam):
+    return LEAVES if fam == 'L' else SPELL
+
 FID_CHARSUB = 'C11.MATH_GROUP_CHARSUB'
 FID_TEXT = 'C11.TEXT_DOLLAR_CLOSES_MATH'
 FID_RULE = 'C11.ARRAY_TRAILING_RULE'
@@ -309,6 +344,11 @@ def pr(t, expand=False, cs=False, tr=False, sub=False):
         return '\\text{u $%s$ v}' % P(t[1], False)
     if op == 'zzm':
         return ('\\gamma %s\\delta ' % P(t[1], sub)) if expand else ('\\zzm{%s}' % P(t[1], sub))
+    if op == 'zzmu':                        # \\zzm x / \\zzm 2 / \\zzm{y+1}: the argument loses its braces on expansion
+        a = t[1]
+        if expand:
+            return '\\gamma %s\\delta ' % (a[1:-1] if a.startswith('{') else a)
+        return '\\zzm%s%s' % (' ' if a[0].isalpha() else '', a)
     if op == 'grp':
         return '{%s}' % P(t[1], True)
     if op == 'arrh':
@@ -340,45 +380,46 @@ def as_tree(x):
     return x if isinstance(x, str) else tuple(as_tree(c) for c in x)
 
 
-def trees_op(d, op):
+def trees_op(d, op, fam='L'):
     """trees of depth exactly d whose root is `op` ('leaf' for d == 1), in enumeration order: unary nodes over every
-    tree of depth d-1; binary nodes over every pair of leaves (d == 2) or (deep child of depth d-1, sibling in SIBS)
-    in both orders (d > 2)"""
+    tree of depth d-1; binary nodes over every pair of leaves (d == 2, family L) or (deep child of depth d-1, sibling in
+    SIBS) in both orders (d > 2, and d == 2 for the spelling family S)"""
     if d == 1:
         if op == 'leaf':
-            for l in LEAVES:
+            for l in leaves(fam):
                 yield l
     elif op in UNARY:
-        for c in trees(d - 1):
+        for c in trees(d - 1, fam):
             yield (op, c)
     elif op in BINARY:
-        if d == 2:
+        if d == 2 and fam == 'L':
             for a in LEAVES:
                 for b in LEAVES:
                     yield (op, a, b)
         else:
-            for c in trees(d - 1):
+            for c in trees(d - 1, fam):
                 for s in SIBS:
                     yield (op, c, s)
                     yield (op, s, c)
 
 
-def trees(d):
+def trees(d, fam='L'):
     """all trees of depth exactly d"""
     for op in (['leaf'] if d == 1 else UNARY + BINARY):
-        for t in trees_op(d, op):
+        for t in trees_op(d, op, fam):
             yield t
 
 
-def count_op(d, op):
-    n = {1: len(LEAVES)}
+def count_op(d, op, fam='L'):
+    n = {1: len(leaves(fam))}
     for k in range(2, d):
-        n[k] = len(UNARY) * n[k - 1] + len(BINARY) * (len(LEAVES) ** 2 if k == 2 else 2 * len(SIBS) * n[k - 1])
+        pairs = len(LEAVES) ** 2 if (k == 2 and fam == 'L') else 2 * len(SIBS) * n[k - 1]
+        n[k] = len(UNARY) * n[k - 1] + len(BINARY) * pairs
     if d == 1:
-        return len(LEAVES) if op == 'leaf' else 0
+        return n[1] if op == 'leaf' else 0
     if op in UNARY:
         return n[d - 1]
-    return len(LEAVES) ** 2 if d == 2 else 2 * len(SIBS) * n[d - 1]
+    return len(LEAVES) ** 2 if (d == 2 and fam == 'L') else 2 * len(SIBS) * n[d - 1]
 
 
 def wrap(ctx, f):
@@ -512,11 +553,11 @@ BATCH_B = 100
 
 
 def b_run_block(block):
-    """block = ('b', ctx, depth, op, lo, hi): trees of exactly that depth with that root operator ('leaf' for depth 1),
-    index range [lo, hi) of the enumeration"""
-    _, ctx, d, op, lo, hi = block
+    """block = ('b', ctx, depth, op, lo, hi, fam): trees of exactly that depth with that root operator ('leaf' for
+    depth 1) over leaf family fam ('L' = LEAVES, 'S' = unbraced spellings), index range [lo, hi) of the enumeration"""
+    _, ctx, d, op, lo, hi, fam = block
     rep = core.Report()
-    ts = list(itertools.islice(trees_op(d, op), lo, hi))
+    ts = list(itertools.islice(trees_op(d, op, fam), lo, hi))
     inline = ctx in ('dollar', 'textbf')
     suspects = [t for t in ts if text_in_dollar(t, inline)]
     normal = [t for t in ts if not text_in_dollar(t, inline)]
@@ -524,6 +565,8 @@ def b_run_block(block):
     def record(t, v, fids, e, o, detail, outcome):
         rep.case(key=(ctx, pr(t)), nontrivial=not isinstance(t, str), outcome=outcome)
         rep.count('b_' + ctx)
+        if fam == 'S':
+            rep.count('b_unbraced_spelling')
         case = {'part': 'b', 'ctx': ctx, 'tree': t}
         if v == 'known':
             for fid in fids:
@@ -675,20 +718,23 @@ def run(tier, seed, rep):
     D = 3 if quick else 4
     for ctx in CONTEXTS:
         dmax = D if ctx != 'ddollar' else 3
-        blocks.append(('b', ctx, 1, 'leaf', 0, len(LEAVES)))
-        for d in range(2, dmax + 1):
-            for op in UNARY + BINARY:
-                n = count_op(d, op)
-                for lo in range(0, n, 2000):
-                    blocks.append(('b', ctx, d, op, lo, min(n, lo + 2000)))
+        for fam, fmax in (('L', dmax), ('S', dmax - 1)):
+            blocks.append(('b', ctx, 1, 'leaf', 0, len(leaves(fam)), fam))
+            for d in range(2, fmax + 1):
+                for op in UNARY + BINARY:
+                    n = count_op(d, op, fam)
+                    for lo in range(0, n, 2000):
+                        blocks.append(('b', ctx, d, op, lo, min(n, lo + 2000), fam))
     bounds['b_formulas'] = {'max_depth': D, 'contexts': CONTEXTS, 'extra_context_ddollar_max_depth': 3,
-                            'leaves': len(LEAVES), 'unary': len(UNARY), 'binary': len(BINARY)}
+                            'leaves': len(LEAVES), 'unary': len(UNARY), 'binary': len(BINARY),
+                            'unbraced_spelling_atoms': len(SPELL), 'unbraced_spelling_max_depth': D - 1}
     blocks = core.rotate(blocks, seed)
     core.merge_all(run_block, blocks, rep, chunksize=1)
     abandoned = rep.counters.get('blocks_abandoned_after_%d_violations' % ABANDON, 0)
     return {'exhaustive': not abandoned, 'bounds': bounds, 'blocks': len(blocks),
             'floors': {'evaluations': 900000 if quick else 15000000, 'a_with_partial_end_marker': 100000,
-                       'b_op_arr': 1000, 'b_op_mbox': 1000, 'b_op_zzm': 1000, 'b_op_sqrtn': 1000}}
+                       'b_op_arr': 1000, 'b_op_mbox': 1000, 'b_op_zzm': 1000, 'b_op_sqrtn': 1000,
+                       'b_unbraced_spelling': 5000}}
 
 
 RULE = ('(a) bodies = strings over 16 characters (\\ { } % # & $ ^ ~ blank newline ` - e n d) + 4 composite symbols (\\end, '
@@ -699,7 +745,7 @@ RULE = ('(a) bodies = strings over 16 characters (\\ { } % # & $ ^ ~ blank newli
         'length <= 3 (4) over the alphabet extended by end{NAME} (no escape character) and the command form \\endNAME that contain one of the two. Observed: node.textContent, text after the construct '
         '(x--..y--%c: dash ligature applied, comment skipped), context depth, verb.source. (b) formula trees of depth '
         '<= 3 (4): 9 leaves, 9 unary and 6 binary operators (binary: all leaf pairs at depth 2, deeper one full child and '
-        'one representative sibling, both orders) in $ $, \\( \\), \\[ \\], equation, \\textbf{..$ $..} (and $$ $$ to depth 3); '
+        'one representative sibling, both orders), plus the same operators to depth 2 (3) over 57 unbraced-argument spellings (\\frac, \\stackrel x {braced, letter, digit}^2; \\sqrt, \\hat, \\bar, \\mathbf, \\sqrt[3], \\sqrt[n] x 3; scripts z^a_b both orders x 9; \\zzm x), in $ $, \\( \\), \\[ \\], equation, \\textbf{..$ $..} (and $$ $$ to depth 3); '
         'source and mathjax_source re-tokenized with the reference lexer, blanks dropped, compared with the printed formula '
         '(user macro expanded on the tree). Non-trivial: non-empty body / depth >= 2; distinct = distinct (construct, '
         'delimiter, body) or (context, formula); outcomes = distinct observed contents / token streams')
